@@ -1,8 +1,13 @@
-(* C19 — Ignored fields never take part in ownership.  Statements only. *)
+(* C19 — Ignored fields never take part in ownership.  Statements only; proofs in
+   Proofs/PathSetLaws.v and Proofs/UpdaterLaws2.v.  Proved for exclusion sets
+   ([exclusion_config]); the include-pattern filter is compared with its independent
+   reference (Spec/Patterns.v) on the implementation's results only. *)
 From Coq Require Import List ZArith String Bool.
-From SMD Require Import Model.Value Model.Order Model.PathElem Model.PathSet Model.Matcher
-  Spec.PathsAsSets Proofs.OrderLaws Proofs.PathSetLaws.
+From SMD Require Import Model.Value Model.Order Model.PathElem Model.PathSet Model.Schema Model.Walk
+  Model.FieldSet Model.Compare Model.Matcher Model.Updater Spec.PathsAsSets Spec.Examples
+  Proofs.OrderLaws Proofs.PathSetLaws Proofs.UpdaterLaws Proofs.UpdaterLaws2.
 Import ListNotations.
+Open Scope list_scope.
 Open Scope bool_scope.
 
 (* an exclusion filter drops exactly the paths at or beneath a member of the exclusion
@@ -13,3 +18,62 @@ Theorem C19_exclusion_filter_exact : forall ex s, ps_ok s = true -> ps_ok ex = t
     ps_has p (apply_filter (FExclude ex) s) = ps_has p s && negb (has_prefix_in p ex).
 Proof. exact (fun ex s Hs He => ps_rdiff_spec s ex Hs He). Qed.
 Print Assumptions C19_exclusion_filter_exact.
+
+Theorem C19_apply_never_owns_ignored :
+  forall (c : config) (live cfg : string * value) (ver : string) 
+           (mf mf0 : managed) (n0 : nat) (mgr : string) (force : bool) 
+           (o : option tv) (mf' : managed),
+         exclusion_config c ->
+         compare_ok_wf c ->
+         fs_ok_wf c ->
+         conv_wf c ->
+         wf_value (snd live) = true ->
+         wf_value (snd cfg) = true ->
+         reconcile_managed c 0 live mf = UOk (mf0, n0) ->
+         records_inv mf0 ->
+         never_owned c mf0 ->
+         apply_op c live cfg ver mf mgr force = UOk (o, mf') -> never_owned c mf'.
+Proof. exact apply_op_never_owned. Qed.
+Print Assumptions C19_apply_never_owns_ignored.
+
+Theorem C19_update_never_owns_ignored :
+  forall (c : config) (live new : string * value) (ver : string) 
+           (mf mf0 : managed) (n0 : nat) (mgr : string) (o : tv) (mf' : managed),
+         exclusion_config c ->
+         compare_ok_wf c ->
+         conv_wf c ->
+         wf_value (snd live) = true ->
+         wf_value (snd new) = true ->
+         reconcile_managed c 0 live mf = UOk (mf0, n0) ->
+         records_inv mf0 ->
+         never_owned c mf0 -> update_op c live new ver mf mgr = UOk (o, mf') -> never_owned c mf'.
+Proof. exact update_op_never_owned. Qed.
+Print Assumptions C19_update_never_owns_ignored.
+
+Theorem C19_others_only_shrink :
+  forall (c : config) (n : nat) (old new : string * value) (ver : string) 
+           (mf : managed) (w : string) (force : bool) (mf' : managed) 
+           (cmp : comparison3) (n' : nat),
+         mf_ok mf ->
+         compare_ok_wf c ->
+         conv_wf c ->
+         wf_value (snd old) = true ->
+         wf_value (snd new) = true ->
+         (forall (v : string) (f : sfilter),
+          ignore_filter_for c v = Some (Some f) ->
+          exists ex : pset, f = FExclude ex /\ ps_ok ex = true) ->
+         update_core c n old new ver mf w force = UOk (mf', cmp, n') ->
+         mf_ok mf' /\
+         (forall (m : string) (r' : mrec), mf_get m mf' = Some r' -> ps_empty (mr_set r') = false) /\
+         (forall (m : string) (r' : mrec),
+          m <> w ->
+          mf_get m mf' = Some r' ->
+          exists r : mrec,
+            mf_get m mf = Some r /\
+            mr_ver r' = mr_ver r /\
+            mr_applied r' = mr_applied r /\
+            (forall p : path,
+             wf_path p = true -> ps_has p (mr_set r') = true -> ps_has p (mr_set r) = true)).
+Proof. exact update_core_others_shrink. Qed.
+Print Assumptions C19_others_only_shrink.
+
